@@ -1013,6 +1013,8 @@ def isin(a, test):
     test = list(test)
     return ndarray._make([ANY([_py_eq(x, t) for t in test]).e for x in a], dtype(builtins.bool))
 
+NUMBA_MODE = False      # set while a Numba kernel's source is executed (see vf/numba_model.py)
+
 def unique(a, return_index=False, return_inverse=False, return_counts=False, equal_nan=True):
     order = _stable_order([a])
     cs = a._cells()
@@ -1024,6 +1026,8 @@ def unique(a, return_index=False, return_inverse=False, return_counts=False, equ
                 eq = z3.BoolVal(builtins.bool(cs[groups[-1][0]] == cs[i]))
             else:
                 _, eq = _lt_eq(cs[groups[-1][0]], cs[i], a.dtype)
+                if NUMBA_MODE and a.dtype.kind == "f":
+                    eq = z3.fpEQ(cs[groups[-1][0]], cs[i])        # Numba's np.unique compares neighbours with !=
             eq = z3.simplify(eq)
             if z3.is_true(eq) or (not z3.is_false(eq) and c().branch(eq)):
                 groups[-1].append(i)
